@@ -1604,4 +1604,1054 @@ theorem addTxList_inv2 {U c p} (hi : PoolInv U c p) (h2 : PoolInv2 p) (hc : NoCo
           rw [this] at tok; exact he tok.1
         rw [if_neg this]; exact hex
 
+theorem alookup_remove (l : SMap) (n n' : Nat) : alookup (l.remove n).2 n' = if n = n' then none else alookup l n' := by
+  unfold SMap.remove
+  split
+  · rename_i hn
+    by_cases h : n = n'
+    · subst h; simp [hn]
+    · simp [h]
+  · exact alookup_aerase l n n'
+
+theorem remove_sorted {l : SMap} (n : Nat) (h : Sorted l) : Sorted (l.remove n).2 :=
+  List.Pairwise.sublist (remove_sublist l n) h
+
+/-- what one iteration of the expiry loop needs from the transaction it removes -/
+structure RemPre (U : List Tx) (q : Pool) (t : Tx) : Prop where
+  inU : t ∈ U
+  key : t.eip = true → (alookup q.eip t.payer).isSome = true
+  slot : t.eip = true → ((alookup q.valid t.hash).isSome = true ∨
+    (∀ l, alookup q.eip t.payer = some l → alookup l t.nonce = none))
+
+def remStep (q : Pool) (t : Tx) : Pool :=
+  if t.eip then
+    match alookup q.eip t.payer with
+    | some l => { q with valid := aerase q.valid t.hash, eip := ainsert q.eip t.payer (l.remove t.nonce).2 }
+    | none => { q with valid := aerase q.valid t.hash }
+  else { q with valid := aerase q.valid t.hash }
+
+theorem remStep_shrink (q : Pool) (t : Tx) : Shrink (remStep q t) q := by
+  unfold remStep
+  split
+  · split
+    · rename_i l hl
+      exact ⟨aerase_sublist _ _, eipTxs_ainsert_sub (p := ⟨aerase q.valid t.hash, q.eip, q.user⟩) hl (remove_sublist l _)⟩
+    · exact ⟨aerase_sublist _ _, fun _ h => h⟩
+  · exact ⟨aerase_sublist _ _, fun _ h => h⟩
+
+theorem remStep_inv2 {U c q} (hi : PoolInv U c q) (h2 : PoolInv2 q) (hc : NoCollision U) {t : Tx} (hp : RemPre U q t) :
+    PoolInv2 (remStep q t) := by
+  unfold remStep
+  by_cases he : t.eip = true
+  · rw [if_pos he]
+    cases hl : alookup q.eip t.payer with
+    | none => have := hp.key he; rw [hl] at this; cases this
+    | some l =>
+      simp only
+      have hsl := h2.slots _ l hl
+      refine ⟨keys_ainsert_nodup _ _ h2.keys, ?_, ?_, ?_, ?_⟩
+      · intro a l' hal
+        simp only [alookup_ainsert] at hal
+        by_cases hpa : t.payer = a
+        · rw [if_pos hpa] at hal
+          have := Option.some.inj hal; subst this
+          refine ⟨remove_sorted _ hsl.1, ?_⟩
+          intro n x hx
+          rw [alookup_remove] at hx
+          by_cases hn : t.nonce = n
+          · simp [hn] at hx
+          · rw [if_neg hn] at hx; exact hpa ▸ hsl.2 n x hx
+        · rw [if_neg hpa] at hal; exact h2.slots a l' hal
+      · intro h' e' hv hee
+        simp only [alookup_aerase] at hv
+        by_cases hh : t.hash = h'
+        · simp [hh] at hv
+        · rw [if_neg hh] at hv
+          obtain ⟨l0, hl0, hn0⟩ := h2.fwd h' e' hv hee
+          simp only [alookup_ainsert]
+          by_cases hpa : t.payer = e'.tx.payer
+          · rw [if_pos hpa]
+            rw [← hpa, hl] at hl0
+            have := Option.some.inj hl0; subst this
+            refine ⟨_, rfl, ?_⟩
+            rw [alookup_remove]
+            by_cases hn : t.nonce = e'.tx.nonce
+            · -- the slot being removed holds `e'.tx`: then `t` is that transaction
+              exfalso
+              rcases hp.slot he with hs | hs
+              · cases hv0 : alookup q.valid t.hash with
+                | none => rw [hv0] at hs; cases hs
+                | some et =>
+                  have het := valid_ent hi hv0
+                  have : et.tx = t := hc _ het.2.1 _ hp.inU het.1
+                  obtain ⟨l1, hl1, hn1⟩ := h2.fwd _ et hv0 (by rw [this]; exact he)
+                  rw [this, hl] at hl1
+                  have := Option.some.inj hl1; subst this
+                  rw [this, hn, hn0] at hn1
+                  have h3 : e'.tx = t := Option.some.inj hn1
+                  exact hh (by rw [← h3]; exact (valid_ent hi hv).1)
+              · have := hs l hl
+                rw [hn, hn0] at this; cases this
+            · rw [if_neg hn]; exact hn0
+          · rw [if_neg hpa]; exact ⟨l0, hl0, hn0⟩
+      · intro a l' n x hal hnx
+        simp only [alookup_ainsert] at hal
+        simp only [alookup_aerase]
+        have hitem : ∃ l0, alookup q.eip a = some l0 ∧ alookup l0 n = some x ∧ ¬ (t.payer = a ∧ t.nonce = n) := by
+          by_cases hpa : t.payer = a
+          · rw [if_pos hpa] at hal
+            have := Option.some.inj hal; subst this
+            rw [alookup_remove] at hnx
+            by_cases hn : t.nonce = n
+            · simp [hn] at hnx
+            · rw [if_neg hn] at hnx
+              exact ⟨l, hpa ▸ hl, hnx, fun h => hn h.2⟩
+          · rw [if_neg hpa] at hal; exact ⟨l', hal, hnx, fun h => hpa h.1⟩
+        obtain ⟨l0, hl0, hn0, hne⟩ := hitem
+        obtain ⟨ex, hex, hext⟩ := h2.bwd a l0 n x hl0 hn0
+        refine ⟨ex, ?_, hext⟩
+        have xs := (h2.slots a l0 hl0).2 n x hn0
+        have : ¬ t.hash = x.hash := by
+          intro hh
+          have : x = t := hc _ (list_tx_ok hi hl0 hn0).2 _ hp.inU hh.symm
+          exact hne ⟨by rw [← this]; exact xs.2, by rw [← this]; exact xs.1⟩
+        rw [if_neg this]; exact hex
+      · intro a l' hal hne
+        simp only [alookup_ainsert] at hal
+        by_cases hpa : t.payer = a
+        · rw [if_pos hpa] at hal
+          have := Option.some.inj hal; subst this
+          apply h2.usr a l (hpa ▸ hl)
+          intro e; subst e; simp [SMap.remove, alookup] at hne
+        · rw [if_neg hpa] at hal; exact h2.usr a l' hal hne
+  · rw [if_neg he]
+    refine ⟨h2.keys, h2.slots, ?_, ?_, h2.usr⟩
+    · intro h' e' hv hee
+      simp only [alookup_aerase] at hv
+      by_cases hh : t.hash = h'
+      · simp [hh] at hv
+      · rw [if_neg hh] at hv; exact h2.fwd h' e' hv hee
+    · intro a l n x hal hnx
+      obtain ⟨ex, hex, hext⟩ := h2.bwd a l n x hal hnx
+      refine ⟨ex, ?_, hext⟩
+      simp only [alookup_aerase]
+      have tok := list_tx_ok hi hal hnx
+      have : ¬ t.hash = x.hash := by
+        intro hh
+        have : x = t := hc _ tok.2 _ hp.inU hh.symm
+        rw [this] at tok; exact he tok.1
+      rw [if_neg this]; exact hex
+
+/-- the precondition of the remaining transactions survives an iteration -/
+theorem remPre_step {U q} (hc : NoCollision U) {t t' : Tx} (hp : RemPre U q t) (hp' : RemPre U q t') :
+    RemPre U (remStep q t) t' := by
+  refine ⟨hp'.inU, ?_, ?_⟩
+  · intro he'
+    have := hp'.key he'
+    unfold remStep
+    split
+    · split
+      · simp only [alookup_ainsert]
+        by_cases h : t.payer = t'.payer <;> simp [h, this]
+      · exact this
+    · exact this
+  · intro he'
+    have hval : ∀ h', alookup (remStep q t).valid h' = if t.hash = h' then none else alookup q.valid h' := by
+      intro h'; unfold remStep; split
+      · split <;> exact alookup_aerase _ _ _
+      · exact alookup_aerase _ _ _
+    by_cases hh : t.hash = t'.hash
+    · -- same transaction twice in the list: its slot is empty now
+      have ht : t' = t := hc _ hp'.inU _ hp.inU hh.symm
+      subst ht
+      right
+      intro l' hl'
+      unfold remStep at hl'
+      rw [if_pos he'] at hl'
+      cases hl : alookup q.eip t'.payer with
+      | none => have := hp.key he'; rw [hl] at this; cases this
+      | some l =>
+        simp only [hl, alookup_ainsert, if_true, Option.some.injEq] at hl'
+        subst hl'
+        rw [alookup_remove]; simp
+    · rcases hp'.slot he' with hs | hs
+      · left; rw [hval, if_neg hh]; exact hs
+      · right
+        intro l' hl'
+        unfold remStep at hl'
+        by_cases he : t.eip = true
+        · rw [if_pos he] at hl'
+          cases hl : alookup q.eip t.payer with
+          | none => have := hp.key he; rw [hl] at this; cases this
+          | some l =>
+            simp only [hl, alookup_ainsert] at hl'
+            by_cases hpa : t.payer = t'.payer
+            · rw [if_pos hpa] at hl'
+              have := Option.some.inj hl'; subst this
+              rw [alookup_remove]
+              by_cases hn : t.nonce = t'.nonce
+              · simp [hn]
+              · rw [if_neg hn]; exact hs l (hpa ▸ hl)
+            · rw [if_neg hpa] at hl'; exact hs l' hl'
+        · rw [if_neg he] at hl'; exact hs l' hl'
+
+/-- the expiry loop never dereferences a missing sender list and keeps the two-way invariant -/
+theorem removeOld_inv2 {U c} (hc : NoCollision U) (old : List Tx) :
+    ∀ {p : Pool}, PoolInv U c p → PoolInv2 p → (∀ t ∈ old, RemPre U p t) →
+      ∃ p', removeOld p old = some p' ∧ PoolInv2 p' := by
+  induction old with
+  | nil => intro p _ h2 _; exact ⟨p, rfl, h2⟩
+  | cons t r ih =>
+    intro p hi h2 hpre
+    have hpt := hpre t (by simp)
+    have hstep : removeOld p (t :: r) = removeOld (remStep p t) r := by
+      simp only [removeOld, remStep]
+      by_cases he : t.eip = true
+      · simp only [he, if_true]
+        cases hl : alookup p.eip t.payer with
+        | none => have := hpt.key he; rw [hl] at this; cases this
+        | some l => rfl
+      · simp only [he]; rfl
+    rw [hstep]
+    exact ih (hi.shrink (remStep_shrink p t)) (remStep_inv2 hi h2 hc hpt)
+      (fun t' ht' => remPre_step hc hpt (hpre t' (List.mem_cons_of_mem _ ht')))
+
+theorem splitExpired_old (height count : Nat) (xs acc : List VTx) :
+    ∀ t ∈ (splitExpired height count xs acc).2, ∃ e ∈ xs, e.tx = t := by
+  induction xs generalizing acc with
+  | nil => simp [splitExpired]
+  | cons e r ih =>
+    simp only [splitExpired]
+    split
+    · intro t ht
+      simp only [List.mem_cons] at ht
+      rcases ht with rfl | ht
+      · exact ⟨e, by simp, rfl⟩
+      · obtain ⟨e', he', h⟩ := ih acc t ht; exact ⟨e', List.mem_cons_of_mem _ he', h⟩
+    · split
+      · intro t ht; obtain ⟨e', he', h⟩ := ih _ t ht; exact ⟨e', List.mem_cons_of_mem _ he', h⟩
+      · intro t ht; obtain ⟨e', he', h⟩ := ih _ t ht; exact ⟨e', List.mem_cons_of_mem _ he', h⟩
+
+/-- a transaction of a `validTxMap` entry satisfies the loop's precondition -/
+theorem remPre_of_entry {U c p} (hi : PoolInv U c p) (h2 : PoolInv2 p) {h : Nat} {e : VTx} (hm : (h, e) ∈ p.valid) :
+    RemPre U p e.tx := by
+  have hl := alookup_of_mem hi.keys hm
+  have hent := hi.ent _ hm
+  have hh : e.tx.hash = h := hent.1
+  refine ⟨hent.2.1, ?_, ?_⟩
+  · intro he
+    obtain ⟨l, hl1, _⟩ := h2.fwd h e hl he
+    simp [hl1]
+  · intro _; left; rw [hh, hl]; rfl
+
+/-- **no nil dereference**: `GetTxPool` always returns, and the pool it leaves is well formed -/
+theorem getTxPool_inv2 {U c p} (hi : PoolInv U c p) (h2 : PoolInv2 p) (hc : NoCollision U) (ord : Order) (ho : ord.IsPerm)
+    (byCount : Bool) (height maxTx : Nat) :
+    ∃ v old p', getTxPool p ord byCount height maxTx = some (v, old, p') ∧ PoolInv2 p' := by
+  unfold getTxPool
+  simp only
+  generalize hsp : splitExpired height _ (candidates p ord) [] = sp
+  obtain ⟨v, old⟩ := sp
+  have hold : ∀ t ∈ old, RemPre U p t := by
+    intro t ht
+    have := splitExpired_old height _ (candidates p ord) [] t (by rw [hsp]; exact ht)
+    obtain ⟨e, he, rfl⟩ := this
+    exact remPre_of_entry hi h2 ((candidates_spec hi ho hc).1 e he)
+  obtain ⟨p', hp', hinv⟩ := removeOld_inv2 hc old hi h2 hold
+  exact ⟨v, old, p', by simp [hp'], hinv⟩
+
+theorem removeBelow_inv2 {U c p} (hi : PoolInv U c p) (h2 : PoolInv2 p) (hc : NoCollision U) (g : Nat) :
+    ∃ p', removeBelow p g = some p' ∧ PoolInv2 p' := by
+  unfold removeBelow
+  apply removeOld_inv2 hc _ hi h2
+  intro t ht
+  obtain ⟨e, he, rfl⟩ := List.mem_map.mp ht
+  obtain ⟨⟨h, e'⟩, hm, rfl⟩ := List.mem_map.mp (List.mem_filter.mp he).1
+  exact remPre_of_entry hi h2 hm
+
+theorem remain_inv2 (p : Pool) : PoolInv2 (remain p).2 :=
+  ⟨by simp [remain], by simp [remain, alookup], by simp [remain, alookup], by simp [remain, alookup], by simp [remain, alookup]⟩
+
+theorem staleOne_inv2 {U c p} (hi : PoolInv U c p) (h2 : PoolInv2 p) (hc : NoCollision U) (height : Nat)
+    (u : Nat × UserInfo) : PoolInv2 (staleOne p height u) := by
+  unfold staleOne
+  split
+  · simp only
+    cases hl : alookup p.eip u.1 with
+    | none =>
+      simp only
+      refine ⟨h2.keys, h2.slots, h2.fwd, h2.bwd, ?_⟩
+      intro a l hal hne
+      simp only [alookup_aerase]
+      have : ¬ u.1 = a := by intro e; rw [e] at hl; rw [hl] at hal; cases hal
+      rw [if_neg this]; exact h2.usr a l hal hne
+    | some l0 =>
+      simp only
+      refine ⟨keys_aerase_nodup _ h2.keys, ?_, ?_, ?_, ?_⟩
+      · intro a l hal
+        simp only [alookup_aerase] at hal
+        by_cases ha : u.1 = a
+        · simp [ha] at hal
+        · rw [if_neg ha] at hal; exact h2.slots a l hal
+      · intro h' e' hv hee
+        rw [alookup_eraseAll] at hv
+        split at hv
+        · cases hv
+        · rename_i hne
+          obtain ⟨l, hl1, hn1⟩ := h2.fwd h' e' hv hee
+          refine ⟨l, ?_, hn1⟩
+          simp only [alookup_aerase]
+          have : ¬ u.1 = e'.tx.payer := by
+            intro e
+            rw [← e, hl] at hl1
+            have := Option.some.inj hl1; subst this
+            apply hne
+            exact ⟨e'.tx, List.mem_map.mpr ⟨(_, e'.tx), alookup_some_mem hn1, rfl⟩, (valid_ent hi hv).1⟩
+          rw [if_neg this]; exact hl1
+      · intro a l n x hal hnx
+        simp only [alookup_aerase] at hal
+        by_cases ha : u.1 = a
+        · simp [ha] at hal
+        · rw [if_neg ha] at hal
+          obtain ⟨ex, hex, hext⟩ := h2.bwd a l n x hal hnx
+          refine ⟨ex, ?_, hext⟩
+          rw [alookup_eraseAll]
+          have : ¬ ∃ y ∈ l0.map (·.2), y.hash = x.hash := by
+            rintro ⟨y, hy, hyh⟩
+            obtain ⟨⟨k, y'⟩, hky, rfl⟩ := List.mem_map.mp hy
+            have hky' := (sorted_alookup_iff (h2.slots _ l0 hl).1 k y').mpr hky
+            have : y' = x := hc _ (list_tx_ok hi hl hky').2 _ (list_tx_ok hi hal hnx).2 hyh
+            have p1 := ((h2.slots _ l0 hl).2 k y' hky').2
+            have p2 := ((h2.slots a l hal).2 n x hnx).2
+            exact ha (by rw [← p1, this, p2])
+          rw [if_neg this]; exact hex
+      · intro a l hal hne
+        simp only [alookup_aerase] at hal ⊢
+        by_cases ha : u.1 = a
+        · simp [ha] at hal
+        · rw [if_neg ha] at hal ⊢; exact h2.usr a l hal hne
+  · exact h2
+
+theorem staleLoop_inv2 {U c} (hc : NoCollision U) (height : Nat) (us : List (Nat × UserInfo)) :
+    ∀ {p : Pool}, PoolInv U c p → PoolInv2 p → PoolInv2 (staleLoop p height us) := by
+  induction us with
+  | nil => intro p _ h2; exact h2
+  | cons u r ih =>
+    intro p hi h2
+    exact ih (hi.shrink (staleOne_shrink p height u)) (staleOne_inv2 hi h2 hc height u)
+
+theorem cleanStaled_inv2 {U c p} (hi : PoolInv U c p) (h2 : PoolInv2 p) (hc : NoCollision U) (height : Nat) :
+    PoolInv2 (cleanStaled p height) := by
+  unfold cleanStaled
+  split
+  · exact staleLoop_inv2 hc height p.user hi h2
+  · exact h2
+
+/-- list-side part of the invariant -/
+structure LInv (p : Pool) : Prop where
+  keys : (p.eip.map (·.1)).Nodup
+  slots : ∀ a l, alookup p.eip a = some l → Sorted l ∧ ∀ n t, alookup l n = some t → t.nonce = n ∧ t.payer = a
+  usr : ∀ a l, alookup p.eip a = some l → l ≠ [] → (alookup p.user a).isSome = true
+
+theorem PoolInv2.linv {p : Pool} (h : PoolInv2 p) : LInv p := ⟨h.keys, h.slots, h.usr⟩
+
+/-- effect of `cleanCompletedEipTxPool` on the lists: `cleaned` = the transactions popped, `done` = the block transactions
+processed -/
+structure CleanRel (p p' : Pool) (cleaned done : List Tx) : Prop where
+  valid : p'.valid = p.valid
+  linv : LInv p'
+  keep : ∀ a l n t, alookup p.eip a = some l → alookup l n = some t →
+    t ∈ cleaned ∨ ∃ l1, alookup p'.eip a = some l1 ∧ alookup l1 n = some t
+  old : ∀ a l1 n t, alookup p'.eip a = some l1 → alookup l1 n = some t → ∃ l, alookup p.eip a = some l ∧ alookup l n = some t
+  above : ∀ b ∈ done, b.eip = true → ∀ l1, alookup p'.eip b.payer = some l1 → ∀ n t, alookup l1 n = some t → b.nonce + 1 ≤ n
+  gone : ∀ t ∈ cleaned, ∀ l1, alookup p'.eip t.payer = some l1 → alookup l1 t.nonce = none
+  wasItem : ∀ t ∈ cleaned, ∃ l, alookup p.eip t.payer = some l ∧ alookup l t.nonce = some t
+
+theorem CleanRel.refl {p : Pool} (h : LInv p) : CleanRel p p [] [] :=
+  ⟨rfl, h, fun a l n t ha hn => Or.inr ⟨l, ha, hn⟩, fun a l n t ha hn => ⟨l, ha, hn⟩, by simp, by simp, by simp⟩
+
+theorem CleanRel.trans {p p1 p2 : Pool} {c1 c2 d1 d2 : List Tx} (r1 : CleanRel p p1 c1 d1) (r2 : CleanRel p1 p2 c2 d2) :
+    CleanRel p p2 (c1 ++ c2) (d1 ++ d2) := by
+  refine ⟨r2.valid.trans r1.valid, r2.linv, ?_, ?_, ?_, ?_, ?_⟩
+  · intro a l n t ha hn
+    rcases r1.keep a l n t ha hn with h | ⟨l1, h1, h1n⟩
+    · exact Or.inl (List.mem_append_left _ h)
+    · rcases r2.keep a l1 n t h1 h1n with h | h
+      · exact Or.inl (List.mem_append_right _ h)
+      · exact Or.inr h
+  · intro a l2 n t ha hn
+    obtain ⟨l1, h1, h1n⟩ := r2.old a l2 n t ha hn
+    exact r1.old a l1 n t h1 h1n
+  · intro b hb he l2 hl2 n t hn
+    rcases List.mem_append.mp hb with hb | hb
+    · obtain ⟨l1, h1, h1n⟩ := r2.old _ l2 n t hl2 hn
+      exact r1.above b hb he l1 h1 n t h1n
+    · exact r2.above b hb he l2 hl2 n t hn
+  · intro t ht l2 hl2
+    rcases List.mem_append.mp ht with ht | ht
+    · cases hx : alookup l2 t.nonce with
+      | none => rfl
+      | some x =>
+        obtain ⟨l1, h1, h1n⟩ := r2.old _ l2 _ x hl2 hx
+        rw [r1.gone t ht l1 h1] at h1n; cases h1n
+    · exact r2.gone t ht l2 hl2
+  · intro t ht
+    rcases List.mem_append.mp ht with ht | ht
+    · exact r1.wasItem t ht
+    · obtain ⟨l1, h1, h1n⟩ := r2.wasItem t ht
+      exact r1.old _ l1 _ t h1 h1n
+
+theorem cleanOne_core {p q : Pool} (hL : LInv p) (b : Tx) (l : SMap) (hl : alookup p.eip b.payer = some l)
+    (rm : List Tx) (l' : SMap) (f1 : Sorted l')
+    (f2 : ∀ n, alookup l' n = if n < b.nonce + 1 then none else alookup l n)
+    (f3 : ∀ t, t ∈ rm ↔ ∃ n, n < b.nonce + 1 ∧ alookup l n = some t)
+    (hqv : q.valid = p.valid) (hqk : (q.eip.map (·.1)).Nodup)
+    (hlk : ∀ a, alookup q.eip a = if b.payer = a then (if l' = [] then none else some l') else alookup p.eip a)
+    (hqu : ∀ a, b.payer ≠ a → alookup q.user a = alookup p.user a)
+    (hqup : l' ≠ [] → (alookup q.user b.payer).isSome = true) : CleanRel p q rm [b] := by
+  have hsl := hL.slots _ l hl
+  refine ⟨hqv, ⟨hqk, ?_, ?_⟩, ?_, ?_, ?_, ?_, ?_⟩
+  · intro a l1 hal
+    rw [hlk] at hal
+    by_cases hp : b.payer = a
+    · rw [if_pos hp] at hal
+      by_cases hz : l' = []
+      · simp [hz] at hal
+      · rw [if_neg hz] at hal
+        have := Option.some.inj hal; subst this
+        refine ⟨f1, ?_⟩
+        intro n t hn
+        rw [f2] at hn
+        split at hn
+        · cases hn
+        · exact hp ▸ hsl.2 n t hn
+    · rw [if_neg hp] at hal; exact hL.slots a l1 hal
+  · intro a l1 hal hne
+    rw [hlk] at hal
+    by_cases hp : b.payer = a
+    · rw [if_pos hp] at hal
+      by_cases hz : l' = []
+      · simp [hz] at hal
+      · rw [← hp]; exact hqup hz
+    · rw [if_neg hp] at hal
+      rw [hqu a hp]; exact hL.usr a l1 hal hne
+  · intro a l0 n t ha hn
+    by_cases hp : b.payer = a
+    · rw [← hp, hl] at ha
+      have := Option.some.inj ha; subst this
+      by_cases hlt : n < b.nonce + 1
+      · exact Or.inl ((f3 t).mpr ⟨n, hlt, hn⟩)
+      · right
+        have hl'n : alookup l' n = some t := by rw [f2, if_neg hlt]; exact hn
+        have hz : l' ≠ [] := by intro e; rw [e] at hl'n; simp [alookup] at hl'n
+        exact ⟨l', by rw [hlk, if_pos hp, if_neg hz], hl'n⟩
+    · exact Or.inr ⟨l0, by rw [hlk, if_neg hp]; exact ha, hn⟩
+  · intro a l1 n t ha hn
+    rw [hlk] at ha
+    by_cases hp : b.payer = a
+    · rw [if_pos hp] at ha
+      by_cases hz : l' = []
+      · simp [hz] at ha
+      · rw [if_neg hz] at ha
+        have := Option.some.inj ha; subst this
+        rw [f2] at hn
+        split at hn
+        · cases hn
+        · exact ⟨l, hp ▸ hl, hn⟩
+    · rw [if_neg hp] at ha; exact ⟨l1, ha, hn⟩
+  · intro b' hb' _ l1 hl1 n t hn
+    simp only [List.mem_singleton] at hb'; subst hb'
+    rw [hlk, if_pos rfl] at hl1
+    by_cases hz : l' = []
+    · simp [hz] at hl1
+    · rw [if_neg hz] at hl1
+      have := Option.some.inj hl1; subst this
+      rw [f2] at hn
+      split at hn
+      · cases hn
+      · omega
+  · intro t ht l1 hl1
+    obtain ⟨n, hlt, hn⟩ := (f3 t).mp ht
+    have ts := hsl.2 n t hn
+    rw [hlk, ts.2, if_pos rfl] at hl1
+    by_cases hz : l' = []
+    · simp [hz] at hl1
+    · rw [if_neg hz] at hl1
+      have := Option.some.inj hl1; subst this
+      rw [f2, ts.1, if_pos hlt]
+  · intro t ht
+    obtain ⟨n, hlt, hn⟩ := (f3 t).mp ht
+    have ts := hsl.2 n t hn
+    exact ⟨l, by rw [ts.2]; exact hl, by rw [ts.1]; exact hn⟩
+
+theorem cleanEipOne_rel {p : Pool} (hL : LInv p) (height : Nat) (b : Tx) (hb : b.eip = true → b.nonce + 1 < two32) :
+    CleanRel p (cleanEipOne p height b).2 (cleanEipOne p height b).1 [b] := by
+  unfold cleanEipOne
+  by_cases he : b.eip = true
+  · rw [if_pos he]
+    cases hl : alookup p.eip b.payer with
+    | none =>
+      simp only
+      have := CleanRel.refl hL
+      refine ⟨this.valid, this.linv, this.keep, this.old, ?_, this.gone, this.wasItem⟩
+      intro b' hb' _ l1 hl1
+      simp only [List.mem_singleton] at hb'; subst hb'
+      rw [hl] at hl1; cases hl1
+    | some l =>
+      simp only
+      have hthr : (b.nonce + 1) % two32 = b.nonce + 1 := Nat.mod_eq_of_lt (hb he)
+      rw [hthr]
+      have hsl := hL.slots _ l hl
+      obtain ⟨f1, f2, f3⟩ := forward_spec hsl.1 (b.nonce + 1)
+      generalize hfw : l.forward (b.nonce + 1) = fw at f1 f2 f3
+      obtain ⟨rm, l'⟩ := fw
+      simp only at f1 f2 f3 ⊢
+      by_cases hz : l'.length = 0
+      · have hz' : l' = [] := List.length_eq_zero_iff.mp hz
+        rw [if_pos hz]
+        apply cleanOne_core (q := { p with eip := aerase p.eip b.payer, user := aerase p.user b.payer }) hL b l hl rm l' f1 f2 f3 rfl (keys_aerase_nodup _ hL.keys)
+        · intro a; simp only [alookup_aerase, hz', if_true]
+        · intro a ha; simp only [alookup_aerase, if_neg ha]
+        · intro hne; exact absurd hz' hne
+      · have hz' : l' ≠ [] := fun e => hz (by rw [e]; rfl)
+        rw [if_neg hz]
+        apply cleanOne_core (q := { p with eip := ainsert p.eip b.payer l', user := ainsert p.user b.payer ⟨height, b.nonce + 1⟩ }) hL b l hl rm l' f1 f2 f3 rfl (keys_ainsert_nodup _ _ hL.keys)
+        · intro a; simp only [alookup_ainsert, if_neg hz']
+        · intro a ha; simp only [alookup_ainsert, if_neg ha]
+        · intro _; simp [alookup_ainsert]
+  · rw [if_neg he]
+    have := CleanRel.refl hL
+    refine ⟨this.valid, this.linv, this.keep, this.old, ?_, this.gone, this.wasItem⟩
+    intro b' hb' he'
+    simp only [List.mem_singleton] at hb'; subst hb'
+    exact absurd he' he
+
+theorem cleanEip_rel (height : Nat) (txs : List Tx) (hb : ∀ b ∈ txs, b.eip = true → b.nonce + 1 < two32) :
+    ∀ {p : Pool}, LInv p → CleanRel p (cleanEip p height txs).2 (cleanEip p height txs).1 txs := by
+  induction txs with
+  | nil => intro p hL; exact CleanRel.refl hL
+  | cons b r ih =>
+    intro p hL
+    simp only [cleanEip]
+    have r1 := cleanEipOne_rel hL height b (hb b (by simp))
+    have r2 := ih (fun b' hb' => hb b' (List.mem_cons_of_mem _ hb')) r1.linv
+    exact r1.trans r2
+
+theorem cleanCompleted_inv2 {U c p} (hi : PoolInv U c p) (h2 : PoolInv2 p) (hc : NoCollision U) (hb : NonceBound U)
+    (txs : List Tx) (htx : ∀ t ∈ txs, t ∈ U) (height : Nat) : PoolInv2 (cleanCompleted p txs height) := by
+  unfold cleanCompleted
+  have rel := cleanEip_rel height txs (fun b hbm he => hb b (htx b hbm) he) h2.linv
+  generalize hce : cleanEip p height txs = ce at rel
+  obtain ⟨cleaned, p1⟩ := ce
+  simp only at rel ⊢
+  have hcu : ∀ t ∈ cleaned, t ∈ U ∧ t.eip = true := by
+    intro t ht
+    obtain ⟨l, hl, hn⟩ := rel.wasItem t ht
+    exact ⟨(list_tx_ok hi hl hn).2, (list_tx_ok hi hl hn).1⟩
+  have hlook : ∀ h', alookup (eraseAll p1.valid (txs ++ cleaned)) h' =
+      if ∃ t ∈ txs ++ cleaned, t.hash = h' then none else alookup p.valid h' := by
+    intro h'; rw [alookup_eraseAll, rel.valid]
+  refine ⟨rel.linv.keys, rel.linv.slots, ?_, ?_, rel.linv.usr⟩
+  · intro h' e' hv hee
+    simp only at hv
+    rw [hlook] at hv
+    split at hv
+    · cases hv
+    · rename_i hne
+      obtain ⟨l, hl, hn⟩ := h2.fwd h' e' hv hee
+      rcases rel.keep _ l _ _ hl hn with hcl | hk
+      · exact absurd ⟨e'.tx, List.mem_append_right _ hcl, (valid_ent hi hv).1⟩ hne
+      · exact hk
+  · intro a l1 n x hal hnx
+    simp only at hal ⊢
+    obtain ⟨l, hl, hn⟩ := rel.old a l1 n x hal hnx
+    obtain ⟨ex, hex, hext⟩ := h2.bwd a l n x hl hn
+    refine ⟨ex, ?_, hext⟩
+    rw [hlook]
+    have xok := list_tx_ok hi hl hn
+    have xs := (h2.slots a l hl).2 n x hn
+    have : ¬ ∃ t ∈ txs ++ cleaned, t.hash = x.hash := by
+      rintro ⟨y, hy, hyh⟩
+      rcases List.mem_append.mp hy with hy | hy
+      · have : y = x := hc _ (htx y hy) _ xok.2 hyh
+        subst this
+        have := rel.above y hy xok.1 l1 (by rw [xs.2]; exact hal) n y hnx
+        omega
+      · have : y = x := hc _ (hcu y hy).1 _ xok.2 hyh
+        subst this
+        have := rel.gone y hy l1 (by rw [xs.2]; exact hal)
+        rw [xs.1, hnx] at this; cases this
+    rw [if_neg this]; exact hex
+
+/-! ### the pool invariant over histories -/
+
+structure SInv2 (U : List Tx) (s : Sys) : Prop where
+  base : SInv U s
+  pool2 : PoolInv2 s.pool
+  chainU : ∀ b ∈ s.chain, ∀ t ∈ b, t ∈ U
+
+/-- every `getPool`/`propose` of the history enumerates Go maps by a permutation -/
+def OrdersOK (ops : List Op) : Prop :=
+  ∀ op ∈ ops, ∀ ord bc h m, (op = .getPool ord bc h m ∨ op = .propose ord bc h m) → ord.IsPerm
+
+theorem SInv2.step {U s} (h : SInv2 U s) (hc : NoCollision U) (hb : NonceBound U) (op : Op)
+    (hu : ∀ t ∈ op.txs, t ∈ U) (hop : ∀ ord bc h m, (op = .getPool ord bc h m ∨ op = .propose ord bc h m) → ord.IsPerm) :
+    SInv2 U (s.step op) := by
+  have hs := h.base
+  have h2 := h.pool2
+  refine ⟨hs.step op hu, ?_, ?_⟩
+  · cases op with
+    | submit t lag =>
+      simp only [Sys.step, Sys.submit]
+      split
+      · exact h2
+      · split
+        · exact h2
+        · exact addTxList_inv2 hs.pool h2 hc _ (hu t (by simp [Op.txs]))
+    | commit txs =>
+      simp only [Sys.step, Sys.commit]
+      split <;> exact h2
+    | notify k =>
+      simp only [Sys.step, Sys.notify]
+      split <;> exact h2
+    | cleanBlk k =>
+      simp only [Sys.step, Sys.cleanBlk]
+      split
+      · rename_i b hbk
+        exact cleanCompleted_inv2 hs.pool h2 hc hb b (h.chainU b (List.mem_of_getElem? hbk)) k
+      · exact h2
+    | getPool ord bc hh m =>
+      obtain ⟨v, old, p', hg, hp'⟩ := getTxPool_inv2 hs.pool h2 hc ord (hop ord bc hh m (Or.inl rfl)) bc hh m
+      simp only [Sys.step, hg]; exact hp'
+    | propose ord bc hh m =>
+      obtain ⟨v, old, p', hg, hp'⟩ := getTxPool_inv2 hs.pool h2 hc ord (hop ord bc hh m (Or.inr rfl)) bc (s.validHeight hh).1 m
+      simp only [Sys.step, Sys.propose, hg, Option.map_some]; exact hp'
+    | remain => exact remain_inv2 _
+    | removeBelow g =>
+      obtain ⟨p', hr, hp'⟩ := removeBelow_inv2 hs.pool h2 hc g
+      simp only [Sys.step, hr]; exact hp'
+    | cleanStaled hh => exact cleanStaled_inv2 hs.pool h2 hc hh
+    | valClean => exact h2
+  · cases op with
+    | commit txs =>
+      simp only [Sys.step, Sys.commit]
+      split
+      · intro b hbm t ht
+        simp only [List.mem_append, List.mem_singleton] at hbm
+        rcases hbm with hbm | rfl
+        · exact h.chainU b hbm t ht
+        · exact hu t (by simpa [Op.txs] using ht)
+      · exact h.chainU
+    | submit t lag =>
+      simp only [Sys.step, Sys.submit]
+      split
+      · exact h.chainU
+      · split <;> exact h.chainU
+    | notify k => simp only [Sys.step, Sys.notify]; split <;> exact h.chainU
+    | cleanBlk k => simp only [Sys.step, Sys.cleanBlk]; split <;> exact h.chainU
+    | getPool ord bc hh m => simp only [Sys.step]; split <;> exact h.chainU
+    | propose ord bc hh m =>
+      simp only [Sys.step]
+      split
+      · rename_i vh out s' hp
+        unfold Sys.propose at hp
+        simp only [Option.map_eq_some_iff] at hp
+        obtain ⟨⟨v, old, p⟩, _, he⟩ := hp
+        simp only [Prod.mk.injEq] at he
+        obtain ⟨_, _, rfl⟩ := he
+        exact h.chainU
+      · exact h.chainU
+    | remain => exact h.chainU
+    | removeBelow g => simp only [Sys.step]; split <;> exact h.chainU
+    | cleanStaled hh => exact h.chainU
+    | valClean => exact h.chainU
+
+theorem SInv2.run {U} (hc : NoCollision U) (hb : NonceBound U) (ops : List Op) :
+    ∀ {s : Sys}, SInv2 U s → (∀ op ∈ ops, ∀ t ∈ op.txs, t ∈ U) → OrdersOK ops → SInv2 U (s.run ops) := by
+  induction ops with
+  | nil => intro s h _ _; exact h
+  | cons op r ih =>
+    intro s h hu ho
+    simp only [Sys.run]
+    exact ih (h.step hc hb op (hu op (by simp)) (ho op (by simp)))
+      (fun o hom => hu o (List.mem_cons_of_mem _ hom)) (fun o hom => ho o (List.mem_cons_of_mem _ hom))
+
+/-- every reachable state satisfies the two-way pool invariant -/
+theorem reachable_inv2 (acct0 : List (Nat × Nat)) (mb : Nat) (ops : List Op)
+    (hc : NoCollision (ops.flatMap Op.txs)) (hb : NonceBound (ops.flatMap Op.txs)) (ho : OrdersOK ops) :
+    SInv2 (ops.flatMap Op.txs) ((Sys.new acct0 mb).run ops) :=
+  SInv2.run hc hb ops ⟨SInv.new _ _ _, PoolInv2.empty, by simp [Sys.new]⟩
+    (fun op hom _ ht => List.mem_flatMap.mpr ⟨op, hom, ht⟩) ho
+
+/-! ### the raw selection: per sender it is the sender's heading, a run of consecutive nonces -/
+
+theorem headingFrom_nonces (l : SMap) (hk : ∀ x ∈ l, x.2.nonce = x.1) (n : Nat) :
+    (SMap.headingFrom n l).map (·.nonce) = List.range' n (SMap.headingFrom n l).length := by
+  induction l generalizing n with
+  | nil => simp [SMap.headingFrom]
+  | cons a r ih =>
+    obtain ⟨k, x⟩ := a
+    simp only [SMap.headingFrom]
+    split
+    · rename_i hkn
+      have hx : x.nonce = k := hk (k, x) (by simp)
+      simp only [List.map_cons, List.length_cons, List.range'_succ]
+      rw [ih (fun y hy => hk y (List.mem_cons_of_mem _ hy)) (n + 1), hx, hkn]
+    · simp
+
+theorem heading_nonces (l : SMap) (hk : ∀ x ∈ l, x.2.nonce = x.1) :
+    l.heading.map (·.nonce) = List.range' l.firstKey l.heading.length := by
+  cases l with
+  | nil => simp [SMap.heading]
+  | cons a r => obtain ⟨k, x⟩ := a; exact headingFrom_nonces _ hk k
+
+def flatQ (q : Tx → Bool) (ls : List (List Tx)) : List Tx := (ls.map (List.filter q)).flatten
+
+/-- at most one of the lists has elements satisfying `q` -/
+def Excl (q : Tx → Bool) (ls : List (List Tx)) : Prop := ls.Pairwise fun l1 l2 => ¬ (l1.any q = true ∧ l2.any q = true)
+
+theorem popAt_flat {q : Tx → Bool} {ls : List (List Tx)} {i : Nat} {t : Tx} {ls' : List (List Tx)}
+    (h : popAt ls i = some (t, ls')) (hx : Excl q ls) :
+    flatQ q ls = (if q t then t :: flatQ q ls' else flatQ q ls') ∧ Excl q ls' ∧ totalLen ls = totalLen ls' + 1 := by
+  induction ls generalizing i ls' with
+  | nil => simp [popAt] at h
+  | cons l r ih =>
+    unfold Excl at hx
+    rw [List.pairwise_cons] at hx
+    cases i with
+    | zero =>
+      cases l with
+      | nil => simp [popAt] at h
+      | cons a l0 =>
+        simp only [popAt, Option.some.injEq, Prod.mk.injEq] at h
+        obtain ⟨rfl, rfl⟩ := h
+        refine ⟨?_, ?_, ?_⟩
+        · simp only [flatQ, List.map_cons, List.flatten_cons, List.filter_cons]
+          by_cases hq : q a = true <;> simp [hq]
+        · unfold Excl
+          rw [List.pairwise_cons]
+          refine ⟨?_, hx.2⟩
+          intro l2 hl2 hh
+          exact hx.1 l2 hl2 ⟨by simp [List.any_cons, hh.1], hh.2⟩
+        · simp [totalLen]; omega
+    | succ j =>
+      simp only [popAt, Option.map_eq_some_iff] at h
+      obtain ⟨⟨t0, r'⟩, hp, he⟩ := h
+      simp only [Prod.mk.injEq] at he
+      obtain ⟨rfl, rfl⟩ := he
+      obtain ⟨i1, i2, i3⟩ := ih hp hx.2
+      obtain ⟨⟨l2, hl2, htl2⟩, hsub⟩ := popAt_mem hp
+      refine ⟨?_, ?_, ?_⟩
+      · simp only [flatQ, List.map_cons, List.flatten_cons] at i1 ⊢
+        rw [i1]
+        by_cases hq : q t0 = true
+        · -- `l` has no `q` element, because `l2 ∋ t0` has one
+          have : l.filter q = [] := by
+            rw [List.filter_eq_nil_iff]
+            intro a ha hqa
+            exact hx.1 l2 hl2 ⟨List.any_eq_true.mpr ⟨a, ha, hqa⟩, List.any_eq_true.mpr ⟨t0, htl2, hq⟩⟩
+          simp [hq, this]
+        · simp [hq]
+      · unfold Excl
+        rw [List.pairwise_cons]
+        refine ⟨?_, i2⟩
+        intro l' hl' hh
+        obtain ⟨l3, hl3, hs3⟩ := hsub l' hl'
+        apply hx.1 l3 hl3
+        refine ⟨hh.1, ?_⟩
+        obtain ⟨a, ha, hqa⟩ := List.any_eq_true.mp hh.2
+        exact List.any_eq_true.mpr ⟨a, hs3 a ha, hqa⟩
+      · simp only [totalLen]; omega
+
+theorem popAt_shift {l : List Tx} {r : List (List Tx)} {i j : Nat} {t : Tx} {ls' : List (List Tx)} (hle : i + 1 ≤ j)
+    (h : popAt r (j - (i + 1)) = some (t, ls')) : ∃ t' ls'', popAt (l :: r) (j - i) = some (t', ls'') := by
+  have : j - i = (j - (i + 1)) + 1 := by omega
+  rw [this]
+  exact ⟨t, l :: ls', by simp [popAt, h]⟩
+
+theorem pickGo_some (ls : List (List Tx)) : ∀ (i : Nat) (best : Option (Nat × Nat)) (j pr : Nat),
+    pickGo ls i best = some (j, pr) → best = some (j, pr) ∨ (i ≤ j ∧ ∃ t ls', popAt ls (j - i) = some (t, ls')) := by
+  induction ls with
+  | nil => intro i best j pr h; simp only [pickGo] at h; exact Or.inl h
+  | cons l r ih =>
+    intro i best j pr h
+    cases l with
+    | nil =>
+      simp only [pickGo] at h
+      rcases ih (i + 1) best j pr h with h1 | ⟨hle, t, ls', hpop⟩
+      · exact Or.inl h1
+      · exact Or.inr ⟨by omega, popAt_shift hle hpop⟩
+    | cons a l0 =>
+      have here : i ≤ i ∧ ∃ t ls', popAt ((a :: l0) :: r) (i - i) = some (t, ls') :=
+        ⟨Nat.le_refl _, a, l0 :: r, by simp [popAt]⟩
+      have win : ∀ j pr, pickGo r (i + 1) (some (i, a.price)) = some (j, pr) →
+          (i ≤ j ∧ ∃ t ls', popAt ((a :: l0) :: r) (j - i) = some (t, ls')) := by
+        intro j pr h
+        rcases ih (i + 1) _ j pr h with h1 | ⟨hle, t, ls', hpop⟩
+        · cases h1; exact here
+        · exact ⟨by omega, popAt_shift hle hpop⟩
+      simp only [pickGo] at h
+      cases best with
+      | none => simp only at h; exact Or.inr (win j pr h)
+      | some b =>
+        obtain ⟨b0, bp⟩ := b
+        simp only at h
+        split at h
+        · exact Or.inr (win j pr h)
+        · rcases ih (i + 1) _ j pr h with h1 | ⟨hle, t, ls', hpop⟩
+          · exact Or.inl h1
+          · exact Or.inr ⟨by omega, popAt_shift hle hpop⟩
+
+theorem pickGo_none (ls : List (List Tx)) : ∀ (i : Nat) (best : Option (Nat × Nat)),
+    pickGo ls i best = none → best = none ∧ ∀ l ∈ ls, l = [] := by
+  induction ls with
+  | nil => intro i best h; simp only [pickGo] at h; exact ⟨h, by simp⟩
+  | cons l r ih =>
+    intro i best h
+    cases l with
+    | nil =>
+      simp only [pickGo] at h
+      obtain ⟨h1, h2⟩ := ih (i + 1) best h
+      exact ⟨h1, by intro l hl; simp only [List.mem_cons] at hl; rcases hl with rfl | hl; rfl; exact h2 l hl⟩
+    | cons a l0 =>
+      simp only [pickGo] at h
+      cases best with
+      | none => simp only at h; exact absurd (ih _ _ h).1 (by simp)
+      | some b =>
+        obtain ⟨b0, bp⟩ := b
+        simp only at h
+        split at h
+        · exact absurd (ih _ _ h).1 (by simp)
+        · exact absurd (ih _ _ h).1 (by simp)
+
+theorem flatQ_all_nil (q : Tx → Bool) (ls : List (List Tx)) (h : ∀ l ∈ ls, l = []) : flatQ q ls = [] ∧ totalLen ls = 0 := by
+  induction ls with
+  | nil => simp [flatQ, totalLen]
+  | cons l r ih =>
+    have hl : l = [] := h l (by simp)
+    subst hl
+    obtain ⟨i1, i2⟩ := ih (fun l hl => h l (List.mem_cons_of_mem _ hl))
+    simp only [flatQ, List.map_cons, List.flatten_cons, List.filter_nil, List.nil_append] at i1 ⊢
+    exact ⟨i1, by simp [totalLen, i2]⟩
+
+theorem totalLen_zero (ls : List (List Tx)) (h : totalLen ls = 0) : ∀ l ∈ ls, l = [] := by
+  induction ls with
+  | nil => simp
+  | cons x r ih =>
+    simp only [totalLen] at h
+    intro l hl
+    simp only [List.mem_cons] at hl
+    rcases hl with rfl | hl
+    · exact List.length_eq_zero_iff.mp (by omega)
+    · exact ih (by omega) l hl
+
+/-- the merge keeps each sender's order: projected on `q`, the selection is the `q` part of the (single) list that has any -/
+theorem selectLoop_filter (q : Tx → Bool) : ∀ (fuel : Nat) (ls : List (List Tx)), totalLen ls ≤ fuel → Excl q ls →
+    (selectLoop fuel ls).filter q = flatQ q ls := by
+  intro fuel
+  induction fuel with
+  | zero =>
+    intro ls hf _
+    simp only [selectLoop, List.filter_nil]
+    have := totalLen_zero ls (by omega)
+    exact (flatQ_all_nil q ls this).1.symm
+  | succ n ih =>
+    intro ls hf hx
+    simp only [selectLoop]
+    cases hp : pickGo ls 0 none with
+    | none =>
+      simp only [List.filter_nil]
+      exact (flatQ_all_nil q ls (pickGo_none ls 0 none hp).2).1.symm
+    | some jp =>
+      obtain ⟨j, pr⟩ := jp
+      simp only
+      rcases pickGo_some ls 0 none j pr hp with h | ⟨_, t, ls', hpop⟩
+      · cases h
+      · simp only [Nat.sub_zero] at hpop
+        rw [hpop]
+        simp only
+        obtain ⟨f1, f2, f3⟩ := popAt_flat hpop hx
+        rw [List.filter_cons, ih ls' (by omega) f2, f1]
+
+def qOf (s : Nat) : Tx → Bool := fun t => t.eip && t.payer == s
+
+theorem proj_eq (s : Nat) (l : List Tx) : proj s l = (l.filter (qOf s)).map (·.nonce) := rfl
+
+theorem flatQ_of_mem {q : Tx → Bool} {ls : List (List Tx)} (hx : Excl q ls) {l1 : List Tx} (hm : l1 ∈ ls)
+    (hq : l1.any q = true) : flatQ q ls = l1.filter q := by
+  induction ls with
+  | nil => cases hm
+  | cons l r ih =>
+    unfold Excl at hx
+    rw [List.pairwise_cons] at hx
+    simp only [flatQ, List.map_cons, List.flatten_cons]
+    simp only [List.mem_cons] at hm
+    rcases hm with rfl | hm
+    · -- the others contribute nothing
+      have : (r.map (List.filter q)).flatten = [] := by
+        rw [List.flatten_eq_nil_iff]
+        intro x hxm
+        obtain ⟨l2, hl2, rfl⟩ := List.mem_map.mp hxm
+        rw [List.filter_eq_nil_iff]
+        intro a ha hqa
+        exact hx.1 l2 hl2 ⟨hq, List.any_eq_true.mpr ⟨a, ha, hqa⟩⟩
+      rw [this, List.append_nil]
+    · have : l.filter q = [] := by
+        rw [List.filter_eq_nil_iff]
+        intro a ha hqa
+        exact hx.1 l1 hm ⟨List.any_eq_true.mpr ⟨a, ha, hqa⟩, hq⟩
+      rw [this, List.nil_append]
+      exact ih hx.2 hm
+
+theorem flatQ_none {q : Tx → Bool} {ls : List (List Tx)} (h : ∀ l ∈ ls, l.any q = false) : flatQ q ls = [] := by
+  unfold flatQ
+  rw [List.flatten_eq_nil_iff]
+  intro x hxm
+  obtain ⟨l2, hl2, rfl⟩ := List.mem_map.mp hxm
+  rw [List.filter_eq_nil_iff]
+  intro a ha hqa
+  have := h l2 hl2
+  rw [List.any_eq_false] at this
+  exact this a ha hqa
+
+theorem filterMap_lookup (valid : List (Nat × VTx)) (xs : List Tx)
+    (h : ∀ t ∈ xs, ∃ e, alookup valid t.hash = some e ∧ e.tx = t) :
+    (xs.filterMap fun t => alookup valid t.hash).map (·.tx) = xs := by
+  induction xs with
+  | nil => rfl
+  | cons t r ih =>
+    obtain ⟨e, he, het⟩ := h t (by simp)
+    simp only [List.filterMap_cons, he, List.map_cons, het]
+    rw [ih (fun x hx => h x (List.mem_cons_of_mem _ hx))]
+
+/-- **raw heading** — before any expiry or truncation, the candidate list of `GetTxPool` restricted to sender `s` is exactly the
+heading of `s`'s nonce list (in nonce order), whatever the map iteration order -/
+theorem candidates_proj {U c p} (hi : PoolInv U c p) (h2 : PoolInv2 p) (ord : Order) (ho : ord.IsPerm) (s : Nat) :
+    ((candidates p ord).map (·.tx)).filter (qOf s) =
+      match alookup p.eip s with
+      | some l => l.heading
+      | none => [] := by
+  -- items of a heading
+  have hitem : ∀ a l, (a, l) ∈ p.eip → ∀ t ∈ l.heading, alookup p.eip a = some l ∧ t.payer = a ∧ t.eip = true ∧
+      ∃ e, alookup p.valid t.hash = some e ∧ e.tx = t := by
+    intro a l hal t ht
+    have ha := alookup_of_mem h2.keys hal
+    obtain ⟨k, hk⟩ := mem_heading ht
+    have hk' := (sorted_alookup_iff (h2.slots a l ha).1 k t).mpr hk
+    exact ⟨ha, ((h2.slots a l ha).2 k t hk').2, (list_tx_ok hi ha hk').1, h2.bwd a l k t ha hk'⟩
+  let ls0 := p.eip.map fun al => al.2.heading
+  have hx0 : Excl (qOf s) ls0 := by
+    unfold Excl
+    rw [List.pairwise_map]
+    have hk := h2.keys
+    rw [List.Nodup, List.pairwise_map] at hk
+    refine List.Pairwise.imp_of_mem ?_ hk
+    intro x y hxm hym hne hh
+    obtain ⟨a1, l1⟩ := x
+    obtain ⟨a2, l2⟩ := y
+    obtain ⟨t1, ht1, hq1⟩ := List.any_eq_true.mp hh.1
+    obtain ⟨t2, ht2, hq2⟩ := List.any_eq_true.mp hh.2
+    have p1 := (hitem a1 l1 hxm t1 ht1).2.1
+    have p2 := (hitem a2 l2 hym t2 ht2).2.1
+    simp only [qOf, Bool.and_eq_true, beq_iff_eq] at hq1 hq2
+    exact hne (by simp only; rw [← p1, ← p2, hq1.2, hq2.2])
+  have hperm := ho.eip ls0
+  have hx : Excl (qOf s) (ord.eip ls0) :=
+    (hperm.pairwise_iff (fun {x y} h hh => h ⟨hh.2, hh.1⟩)).mpr hx0
+  -- the candidate transactions
+  have hsel : (selectSort p.valid (ord.eip ls0)).map (·.tx) = selectLoop (totalLen (ord.eip ls0)) (ord.eip ls0) := by
+    unfold selectSort
+    apply filterMap_lookup
+    intro t ht
+    obtain ⟨l, hl, htl⟩ := mem_selectLoop ht
+    have := hperm.subset hl
+    obtain ⟨⟨a, m⟩, ham, rfl⟩ := List.mem_map.mp this
+    exact (hitem a m ham t htl).2.2.2
+  unfold candidates
+  rw [List.map_append, List.filter_append]
+  have h2nd : ((sortDesc (ord.vals ((p.valid.map (·.2)).filter fun e => !e.tx.eip))).map (·.tx)).filter (qOf s) = [] := by
+    rw [List.filter_eq_nil_iff]
+    intro t ht hq
+    obtain ⟨e, he, rfl⟩ := List.mem_map.mp ht
+    have := ((sortDesc_perm _).trans (ho.vals _)).subset he
+    have hne := (List.mem_filter.mp this).2
+    simp only [qOf, Bool.and_eq_true] at hq
+    simp [hq.1] at hne
+  rw [h2nd, List.append_nil]
+  show ((selectSort p.valid (ord.eip ls0)).map (·.tx)).filter (qOf s) = _
+  rw [hsel, selectLoop_filter (qOf s) _ _ (Nat.le_refl _) hx]
+  -- which list has `q` elements
+  have hid : ∀ l1 ∈ ord.eip ls0, l1.any (qOf s) = true → ∃ l, alookup p.eip s = some l ∧ l1 = l.heading := by
+    intro l1 hl1 hq
+    obtain ⟨⟨a, m⟩, ham, rfl⟩ := List.mem_map.mp (hperm.subset hl1)
+    obtain ⟨t, ht, hqt⟩ := List.any_eq_true.mp hq
+    have := hitem a m ham t ht
+    simp only [qOf, Bool.and_eq_true, beq_iff_eq] at hqt
+    have : a = s := by rw [← this.2.1]; exact hqt.2
+    subst this
+    exact ⟨m, alookup_of_mem h2.keys ham, rfl⟩
+  cases hl : alookup p.eip s with
+  | none =>
+    simp only
+    apply flatQ_none
+    intro l1 hl1
+    cases hq : l1.any (qOf s) with
+    | false => rfl
+    | true => obtain ⟨l, hl', _⟩ := hid l1 hl1 hq; rw [hl] at hl'; cases hl'
+  | some l =>
+    simp only
+    have hall : ∀ t ∈ l.heading, qOf s t = true := by
+      intro t ht
+      have := hitem s l (alookup_some_mem hl) t ht
+      simp [qOf, this.2.1, this.2.2.1]
+    by_cases hq : l.heading.any (qOf s) = true
+    · have hm : l.heading ∈ ord.eip ls0 :=
+        hperm.symm.subset (List.mem_map.mpr ⟨(s, l), alookup_some_mem hl, rfl⟩)
+      rw [flatQ_of_mem hx hm hq]
+      exact List.filter_eq_self.mpr hall
+    · -- the heading is empty
+      have hemp : l.heading = [] := by
+        cases hh : l.heading with
+        | nil => rfl
+        | cons t r =>
+          exfalso; apply hq
+          rw [hh]
+          exact List.any_eq_true.mpr ⟨t, by simp, hall t (by rw [hh]; simp)⟩
+      rw [hemp]
+      apply flatQ_none
+      intro l1 hl1
+      cases hq1 : l1.any (qOf s) with
+      | false => rfl
+      | true =>
+        obtain ⟨l', hl', h1⟩ := hid l1 hl1 hq1
+        rw [hl] at hl'; cases hl'
+        rw [h1, hemp] at hq1; simp at hq1
+
+
+theorem no_panic_of_inv {U} {s : Sys} (hi : SInv2 U s) (hcol : NoCollision U)
+    (ord : Order) (hord : ord.IsPerm) (byCount : Bool) (h maxTx gasPrice addr : Nat) :
+    (getTxPool s.pool ord byCount h maxTx).isSome = true ∧ (s.propose ord byCount h maxTx).isSome = true ∧
+    (removeBelow s.pool gasPrice).isSome = true ∧ (nextNonce s.pool addr).isSome = true := by
+  refine ⟨?_, ?_, ?_, ?_⟩
+  · obtain ⟨v, old, p', hg, _⟩ := getTxPool_inv2 hi.base.pool hi.pool2 hcol ord hord byCount h maxTx
+    rw [hg]; rfl
+  · obtain ⟨v, old, p', hg, _⟩ := getTxPool_inv2 hi.base.pool hi.pool2 hcol ord hord byCount (s.validHeight h).1 maxTx
+    simp only [Sys.propose, hg, Option.map_some, Option.isSome_some]
+  · obtain ⟨p', hr, _⟩ := removeBelow_inv2 hi.base.pool hi.pool2 hcol gasPrice
+    rw [hr]; rfl
+  · unfold nextNonce
+    split
+    · rfl
+    · rename_i l hl
+      split
+      · rfl
+      · rename_i t0 r hh
+        split
+        · have hne : l ≠ [] := by intro e; subst e; simp [SMap.heading] at hh
+          have := hi.pool2.usr addr l hl hne
+          cases hu : alookup s.pool.user addr with
+          | none => rw [hu] at this; cases this
+          | some u => simp only; split <;> rfl
+        · rfl
+
 end OntVerif.Proofs.TxPool
